@@ -26,7 +26,7 @@ TSr == /\ IsEvent("sr")
                /\ Ev.ser_rt /\ Ev.dup_rt /\ Ev.pp_rt
                /\ Ev.bfam = Ev.fam /\ Ev.baddr = Ev.addr /\ Ev.bport = Ev.port
           ELSE Ev.n >= -1 /\ (Ev.n >= 1 => (Ev.ser_rt /\ Ev.dup_rt))
-TSd == IsEvent("sd") /\ (Ev.null \/ ~Has("same") \/ Ev.same \/ TRUE)
+TSd == IsEvent("sd") /\ (Ev.null \/ ~Has("same") \/ Ev.same)        \* what the decoder accepts serialises back to the same bytes
 \* JSON key finder: a pointer inside [buf, end]; on a valid object, the value of the first top-level member whose decoded
 \* name equals the key (names written with \u escapes never match), else the end
 TJf == /\ IsEvent("jf") /\ Ev.off >= 0 /\ Ev.off <= Ev.len
